@@ -8,6 +8,8 @@
 #include <cstdlib>
 #include <fstream>
 #include <limits>
+#include <thread>
+#include <fcntl.h>
 #include <cerrno>
 #include <cfenv>
 #include <memory>
@@ -48,6 +50,10 @@ struct Ctx
     std::uint64_t raw_at(std::uint64_t pos) const { return pos < raw.size() ? raw[pos] : splitmix64(seed + pos); }
 };
 static thread_local Ctx* g_ctx = nullptr;
+// several integrations at once in different threads of the process ("concurrent"): the callbacks print to the real std::cout (file
+// descriptor 1 points to /dev/null meanwhile) instead of a captured buffer, and every thread writes its own checkpoint file
+static bool g_nocapture = false;
+static thread_local int g_tid = 0;
 
 // random engine = position in the scripted stream of raw 64-bit draws
 struct script_engine
@@ -353,6 +359,20 @@ template <typename C, typename CbC = C> struct BuiltinCb
     bool operator()(C const& c)
     {
         hep::callback<CbC>& inner = *inner_;
+        if (g_nocapture)
+        {
+            if (!keep) ::unlink(filename.c_str());
+            bool const go = inner(c);
+            Sx e = Sx::list({Sx::num(c.results().size()), Sx::num(go ? 1 : 0)});
+            if ((mode == 1 || mode == 3) && !keep)
+            {
+                std::ifstream in(filename, std::ios::binary);
+                std::ostringstream content; content << in.rdbuf();
+                e.add(Sx::list({Sx::sym("wrote"), in ? Sx::str(content.str()) : Sx::sym("no_file")}));
+            }
+            g_ctx->cbs.push_back(e);
+            return go;
+        }
         std::ostringstream capture;
         std::streambuf* old = std::cout.rdbuf(capture.rdbuf());
         if (!keep) ::unlink(filename.c_str());
@@ -681,8 +701,44 @@ inline void check_function_state(std::uint64_t own, std::uint64_t seen)
     if (own != seen) g_ctx->cbs.push_back(Sx::list({Sx::sym("integrand_object_not_invoked"), Sx::num(own), Sx::num(seen)}));
 }
 
+template <typename T> Sx run_case(std::string const& cmd, Sx const& a);
+
+// the same case run alone and then by several threads at once (each with its own context, engine stream, integrand, checkpoint and
+// checkpoint file - the user shares nothing): every thread must observe what the run alone observed.  C++ only.
+template <typename T> Sx run_concurrent(Sx const& a)
+{
+    int const n = static_cast<int>(a.find("threads") ? a.find("threads")->at(1).N_() : 4);
+    std::cout.flush(); std::fflush(stdout);
+    int const saved = ::dup(1); int const null = ::open("/dev/null", O_WRONLY); ::dup2(null, 1); ::close(null);
+    g_nocapture = true;
+    std::string ref; std::vector<std::string> outs(n);
+    std::vector<std::string> errs(n);
+    try
+    {
+        g_tid = 0; { Sx r = run_case<T>("run", a); print_sx(ref, r); }
+        std::vector<std::thread> th;
+        for (int k = 0; k != n; ++k)
+            th.emplace_back([&, k]() {
+                g_tid = k + 1;
+                try { Sx r = run_case<T>("run", a); print_sx(outs[k], r); }
+                catch (std::exception const& e) { errs[k] = e.what(); }
+                catch (...) { errs[k] = "unknown exception"; }
+            });
+        for (auto& t : th) t.join();
+    }
+    catch (...) { g_nocapture = false; std::cout.flush(); ::dup2(saved, 1); ::close(saved); throw; }
+    g_nocapture = false; g_tid = 0;
+    std::cout.flush(); std::fflush(stdout); ::dup2(saved, 1); ::close(saved);
+    std::size_t differ = 0; std::string first_err;
+    for (int k = 0; k != n; ++k) { if (!errs[k].empty() || outs[k] != ref) ++differ; if (first_err.empty()) first_err = errs[k]; }
+    Sx out = Sx::list({Sx::sym("concurrent"), Sx::num(static_cast<std::uint64_t>(n)), Sx::num(differ)});
+    if (!first_err.empty()) out.add(Sx::str(first_err));
+    return out;
+}
+
 template <typename T> Sx run_case(std::string const& cmd, Sx const& a)
 {
+    if (cmd == "concurrent") return run_concurrent<T>(a);
     if (cmd != "run") return Sx::list({Sx::sym("unknown_command"), Sx::sym(cmd)});
     Ctx ctx; g_ctx = &ctx;
     Spec<T> sp;
@@ -734,7 +790,7 @@ template <typename T> Sx run_case(std::string const& cmd, Sx const& a)
     if (cb.at(0).is_sym("builtin")) { sp.builtin = true; sp.mode = static_cast<int>(cb.at(1).N_()); sp.target = static_cast<T>(cb.at(2).F_()); }
     else { sp.builtin = false; for (auto const& b : cb.at(1).L_()) sp.script.push_back(b.N_() != 0); }
     char const* tmpdir = std::getenv("VERIF_TMP");
-    sp.filename = std::string(tmpdir ? tmpdir : ".") + "/verif_chk_" + std::to_string(::getpid()) + ".txt";
+    sp.filename = std::string(tmpdir ? tmpdir : ".") + "/verif_chk_" + std::to_string(::getpid()) + (g_tid ? "_t" + std::to_string(g_tid) : std::string()) + ".txt";
     if (Sx const* e = a.find("keepfile")) { sp.filename = e->at(1).S_(); sp.keepfile = true; }
     sp.cbbase = num("cbbase", 0) != 0;
     sp.cbref = num("cbref", 0) != 0;
@@ -754,10 +810,15 @@ template <typename T> Sx run_case(std::string const& cmd, Sx const& a)
         std::ios_base::fmtflags flags; std::streamsize prec;
         CoutGuard() : flags(std::cout.flags()), prec(std::cout.precision()) {}
         ~CoutGuard() { std::cout.exceptions(std::ios::goodbit); std::cout.clear(); std::cout.flags(flags); std::cout.precision(prec); }
-    } cout_guard;
-    user_format(std::cout, sp.coutfmt);
-    if (sp.coutfmt & 256) std::cout.precision(std::numeric_limits<T>::max_digits10);
-    if (sp.coutfmt & 512) std::cout.exceptions(std::ios::badbit | std::ios::failbit);        // a user who wants to notice a full disk behind a redirected stdout
+    };
+    // (not while several threads run cases at once: the format state of std::cout is the program's, not the library's)
+    std::unique_ptr<CoutGuard> cout_guard(g_nocapture ? nullptr : new CoutGuard());
+    if (!g_nocapture)
+    {
+        user_format(std::cout, sp.coutfmt);
+        if (sp.coutfmt & 256) std::cout.precision(std::numeric_limits<T>::max_digits10);
+        if (sp.coutfmt & 512) std::cout.exceptions(std::ios::badbit | std::ios::failbit);        // a user who wants to notice a full disk behind a redirected stdout
+    }
     Sx const& ops = a.find("ops")->at(1);
     Sx const& ck = a.find("chk")->at(1);
     bool const with_dists = !sp.dists.empty() || sp.force_acc;
